@@ -519,6 +519,11 @@ func genC16(t *rapid.T) C16Case {
 		if cause == "oversize" {
 			end.Total = rapid.SampledFrom([]int{8000, 8193, 9000, 12000, 16383, 16384, 16385, 20000, 50000}).Draw(t, "total")
 			end.Frag = rapid.SampledFrom([]int{1, 2, 5, 100, 1000, 4000}).Draw(t, "frag")
+			if rapid.Bool().Draw(t, "at-the-limit") {
+				// packets of 8191 ... 8196 bytes (the 16 KiB inbound buffer takes in 8192), cut around that mark
+				end.Total = 8192 - 10 + rapid.IntRange(-1, 4).Draw(t, "over")
+				end.Frag = 8192 + rapid.IntRange(-1, 3).Draw(t, "fragover")
+			}
 		}
 		c.Ends = append(c.Ends, end)
 		if rapid.IntRange(0, 9).Draw(t, "serverclose") == 0 {
